@@ -4,7 +4,7 @@
    offset/width — and order independence of the encoded link list.  Equality of whole DAGs with boxo
    and reading of boxo-written shards (after arbitrary insert/remove histories) are established per
    run by the correspondence of the builder/reader models and by the CID/size oracle. *)
-From UV Require Import Hamt.HashBits Hamt.HashBitsSpec Hamt.Build Hamt.SortProofs Hamt.TrieProofs Hamt.ShardDecode Hamt.Refine Hamt.Canon Hamt.CanonSpec Base.Varint.
+From UV Require Import Hamt.HashBits Hamt.HashBitsSpec Hamt.Build Hamt.SortProofs Hamt.TrieProofs Hamt.ShardDecode Hamt.Refine Hamt.Canon Hamt.CanonSpec Hamt.Read Hamt.RefModel Hamt.RefHistory Base.Varint.
 From Coq Require Import Permutation.
 Local Open Scope N_scope.
 
@@ -58,3 +58,39 @@ Theorem C08_specification_example :
   build_sharded 8 HashMurmur3 demo_entries = Ok (serialize_node 8 HashMurmur3 (pad_len 8) (BShard (canon 3 70 0 demo_entries))).
 Proof. exact canon_demo. Qed.
 Print Assumptions C08_specification_example.
+
+(* the REFERENCE implementation's own mutations (boxo hamt Shard.swapValue: Set with fork / replace, Remove with pruning and
+   collapse of a sub-shard left with a single value), modelled in Hamt/RefModel.v and compared with boxo on every run:
+   after ANY history of Sets and Removes applied to an empty shard (a Remove of an absent name reports ErrNotExist and changes
+   nothing) the trie keeps the three HAMT invariants and holds exactly the abstract directory `mrun ops` *)
+Theorem C08_reference_history_keeps_the_invariants : forall size lg, permitted size lg ->
+  forall H : bytes -> bytes, (forall k, wf_bytes (H k) = true) -> (forall k, length (H k) = 8%nat) ->
+  forall fuel ops t, Forall (hop_ok H) ops -> hrun lg fuel ops = Ok t ->
+  bwf lg 0 (BShard t) /\ bok size H (BShard t) /\ bmin (BShard t) /\ NoDup (map e_name (mrun ops)) /\ Permutation (entries_in t) (mrun ops).
+Proof. exact history_spec. Qed.
+Print Assumptions C08_reference_history_keeps_the_invariants.
+
+(* ... hence what the reference writes after any such history is read by this library as exactly the reference's entry set
+   (members resolve to their links, other names are not found, iteration yields every entry once, the length is the count),
+   and it is byte-identical (root block and cumulative size) to what this library's builder writes for that entry set *)
+Theorem C08_reference_history_is_read_as_its_entry_set : forall size lg, permitted size lg ->
+  forall H : bytes -> bytes, (forall k, wf_bytes (H k) = true) -> (forall k, length (H k) = 8%nat) ->
+  forall fuel ops t, Forall (hop_ok H) ops -> hrun lg fuel ops = Ok t ->
+  let root := fst (serialize_node size HashMurmur3 (pad_len size) (BShard t)) in
+  let m := mrun ops in
+  NoDup (map e_name m)
+  /\ (forall e, In e m -> fst (lookup nofault root (H (e_name e)) (e_name e)) = Ok (e_target e))
+  /\ (forall key, ~ In key (map e_name m) -> fst (lookup nofault root (H key) key) = Err ENotFound)
+  /\ Permutation (map snd (iterate nofault root)) (map yield_of m)
+  /\ fst (shard_length nofault root) = Ok (N.of_nat (length m))
+  /\ (forall r, build_sharded size HashMurmur3 m = Ok r -> r = serialize_node size HashMurmur3 (pad_len size) (BShard t)).
+Proof. exact ref_history_read. Qed.
+Print Assumptions C08_reference_history_is_read_as_its_entry_set.
+
+Theorem C08_reference_history_example :
+  Forall (hop_ok demo_hash) demo_ops
+  /\ map e_name (mrun demo_ops) = [[65; 1]; [66]]
+  /\ exists t, hrun 3 70 demo_ops = Ok t
+     /\ build_sharded 8 HashMurmur3 (mrun demo_ops) = Ok (serialize_node 8 HashMurmur3 (pad_len 8) (BShard t)).
+Proof. exact demo_history. Qed.
+Print Assumptions C08_reference_history_example.
